@@ -9,7 +9,9 @@ ROW = re.compile(r'^row (.+) (out=\S+) tried=(\d+) mismatches=(\d+) first=(-?\d+
 
 
 def run(ctx):
-    cfgs = ['prod', 'san', 'p64', 'p32'] if ctx.quick else ['prod', 'san', 'p64', 'p32', 'p32-san', 'gcc-san']
+    # aliasing bugs depend on what the compiler keeps in registers: the unoptimised portable build (every source-level load and store
+    # happens, in order) and g++ are code generations of their own
+    cfgs = ['prod', 'san', 'p64', 'p32', 'p64-O0', 'gcc-p64'] if ctx.quick else ['prod', 'san', 'p64', 'p32', 'p32-san', 'gcc-san', 'p64-O0', 'p32-O0', 'gcc-p64', 'gcc-p64-O0']
     exes = session.build_exes({c: (c, 'alias_drv.cpp', []) for c in cfgs})
     trials = 24 if ctx.quick else 400
     rows_seen = {}
